@@ -42,6 +42,14 @@ fn main() {
             tw.event(json!({"ev": "bm", "adds": adds, "octets": octets}));
             continue;
         }
+        if i % 10 == 6 {
+            // an OPT record assembled from constructor arguments (1 to 3 options)
+            let n = 1 + g.rng.below(3);
+            let pushes: Vec<Value> = (0..n).map(|_| rdata::optbuild::random_args(&mut g)).collect();
+            let obs = observe(|| rdata::optbuild::observe_optbuild(&pushes));
+            tw.event(json!({"ev": "optbuild", "pushes": pushes, "obs": obs}));
+            continue;
+        }
         let (code, may, mut rd) = random_rdata(&mut g, &table, 12);
         // damage some inputs
         let mut damaged = true;
